@@ -18,8 +18,11 @@ case $FL in
   *) echo "unknown flavour $FL" >&2; exit 2 ;;
 esac
 rm -f $O/*.o $O/fail
+# the library itself: unoptimised in the plain flavour, like the project's default build (recursion depth, store-to-load forwarding
+# and the like then are what the source says); optimised in the sanitizer and limit flavours
+LF="$CF"; [ "$FL" = plain ] && LF="-O0 $COMMON"
 for f in $REPO/cJSON.c $REPO/cJSON_Utils.c; do
-  ( $CC $CF -c $f -o $O/$(basename $f .c).o || touch $O/fail ) &
+  ( $CC $LF -c $f -o $O/$(basename $f .c).o || touch $O/fail ) &
 done
 for f in $V/harness/*.c; do
   ( $CC $CF -c $f -o $O/h_$(basename $f .c).o || touch $O/fail ) &
